@@ -26,13 +26,16 @@ RULES = {
     "positions given to the source handle (seek, offset_src=) derive from the tensor's offset and never from the "
     "destination's position - otherwise the bytes or the following writes land at a position that depends on where the "
     "tensor happens to live in its data file",
+    "R9": "one coordinate system for the mapped data file: ExternalTensor maps the file from byte 0 and every position "
+    "used with the mapping (np.frombuffer offset=, slices of self.raw) is the tensor's absolute file offset - or, if the "
+    "mapping starts at a window base, every position in every method is taken relative to that same base",
     "R7": "logical element order: every flattening / reshaping / byte-producing array call on the tensor byte paths "
     "(ravel, flatten, reshape, tobytes, resize) uses row-major order - no order= other than 'C' - so elements and bytes "
     "follow the declared shape, not the array's memory layout",
     "R6": "packing constants: masks are ((1<<K)-1) shifted by multiples of K, shifts are multiples of K below 8, "
     "strides and padding moduli are 8/K in each helper",
 }
-FLOORS = {"R1": 120, "R2": 4, "R3": 8, "R4": 1, "R5": 6, "R6": 20, "R7": 30, "R8": 4}
+FLOORS = {"R1": 120, "R2": 4, "R3": 8, "R4": 1, "R5": 6, "R6": 20, "R7": 30, "R8": 4, "R9": 2}
 EXPLANATION = (
     "Evaluates the enum and table literals of _enums/_core/tensor_adapters with ast only and compares them with "
     "each other; derives the sub-byte classes from _BITWIDTH_MAP and checks every storage guard, packing-helper "
@@ -683,9 +686,60 @@ def rule_r8(ctx):
     ctx.require(len(sites) >= 4, f"only {len(sites)} position arguments found in ExternalTensor.tofile")
 
 
+def rule_r9(ctx):
+    cls = ctx.repo.cls("onnx_ir._core:ExternalTensor")
+    maps, positions = [], []
+    for f in cls.methods.values():
+        me = f.params[0] if f.params else "self"
+        for n in own_nodes(f.node):
+            if isinstance(n, ast.Call) and dotted_of(n.func) == "mmap.mmap":
+                maps.append((f, n))
+            if isinstance(n, ast.Call) and (dotted_of(n.func) or "").split(".")[-1] == "frombuffer" and n.args and norm(n.args[0]) == f"{me}.raw":
+                off = next((k.value for k in n.keywords if k.arg == "offset"), None)
+                if off is not None:
+                    positions.append((f, n, off, "frombuffer offset="))
+            if isinstance(n, ast.Subscript) and norm(n.value) == f"{me}.raw" and isinstance(n.slice, ast.Slice):
+                for part, label in ((n.slice.lower, "slice start"), (n.slice.upper, "slice end")):
+                    if part is not None:
+                        positions.append((f, n, part, label))
+    ctx.require(len(maps) == 1, f"ExternalTensor: {len(maps)} mmap.mmap calls found (expected 1)")
+    ctx.require(len(positions) >= 2, "ExternalTensor: positions into self.raw not found")
+    mf, mc = maps[0]
+    length = mc.args[1] if len(mc.args) > 1 else next((k.value for k in mc.keywords if k.arg == "length"), None)
+    moff = next((k.value for k in mc.keywords if k.arg == "offset"), mc.args[5] if len(mc.args) > 5 else None)
+    whole = (moff is None or (isinstance(moff, ast.Constant) and moff.value == 0)) and isinstance(length, ast.Constant) and length.value == 0
+    # names that carry the window base (when the mapping is windowed)
+    base_names = set()
+    if not whole and moff is not None:
+        base_names = {x.id for x in ast.walk(moff) if isinstance(x, ast.Name)} | {norm(x) for x in ast.walk(moff) if isinstance(x, ast.Attribute)}
+        for n in own_nodes(mf.node):
+            if isinstance(n, ast.Assign) and isinstance(n.targets[0], ast.Attribute) and norm(n.targets[0].value) == mf.params[0] \
+                    and any(isinstance(x, ast.Name) and x.id in base_names for x in ast.walk(n.value)):
+                base_names.add(norm(n.targets[0]))
+    for f, node, e, label in positions:
+        t = _taints(f, e, "<none>")
+        if whole:
+            ok = "SRC" in t and not any(isinstance(x, ast.BinOp) and isinstance(x.op, ast.Sub) for x in ast.walk(e))
+            why = "the file is mapped from byte 0, so positions are absolute file offsets"
+        else:
+            mentions = {x.id for x in ast.walk(e) if isinstance(x, ast.Name)} | {norm(x) for x in ast.walk(e) if isinstance(x, ast.Attribute)}
+            # through locals of the same function
+            for n in own_nodes(f.node):
+                if isinstance(n, ast.Assign) and isinstance(n.targets[0], ast.Name) and n.targets[0].id in mentions:
+                    mentions |= {x.id for x in ast.walk(n.value) if isinstance(x, ast.Name)} | {norm(x) for x in ast.walk(n.value) if isinstance(x, ast.Attribute)}
+            ok = bool(mentions & base_names) and (f is mf or any(b.startswith(f"{f.params[0]}.") for b in mentions & base_names))
+            why = f"the mapping starts at the window base `{norm(moff)}`, so every position must be taken relative to it"
+        ctx.check("R9", f"{f.local}: {label} `{norm(e)}` uses the mapping's coordinate system", ok, f, node,
+                  f"`{norm(e)}` indexes self.raw in a different coordinate system than the mapping ({why}): the bytes read here "
+                  "are not the tensor's bytes (numpy() and tobytes() disagree, or the slice is empty/truncated)",
+                  how="mmap base (0 / window offset) vs data dependence of every frombuffer offset and raw slice bound",
+                  construct=f"{label} {norm(e)}")
+
+
 def run(ctx):
     rule_r7(ctx)
     rule_r8(ctx)
+    rule_r9(ctx)
     rule_r1(ctx)
     rule_r2(ctx)
     rule_r3(ctx)
